@@ -127,6 +127,11 @@ func main() {
 			execute(c, s)
 		})
 		r.Cases("bcast-race", r.Scale(4000, 60000), 1, func(c *vkit.Case) { bcastRace(c) })
+		r.Cases("phases", r.Scale(500, 8000), 1, func(c *vkit.Case) { phases(c) })
+		r.Cases("shared", r.Scale(400, 6000), 1, func(c *vkit.Case) { shared(c) })
+		r.Floor("multi-phase histories on one cond", r.Table("phases", "histories"), 300)
+		r.Floor("histories with a shared Locker", r.Table("shared", "histories"), 300)
+		r.Floor("lone Signals followed by a wake-up (phases)", r.Table("phases", "lone Signals to waiting goroutines, each followed by a wake-up"), 300)
 		r.Floor("rounds with lock-less Broadcasts racing a waiter's entry into Wait", r.Table("bcast-race", "rounds"), 1000)
 		r.Floor("gated scenarios executed", r.Table("scenarios", "gated"), int64(len(all)))
 		r.Floor("waiters confirmed parked through the goroutine dump", r.Table("waiters", "confirmed parked before the signals"), 100)
